@@ -477,6 +477,37 @@ def gen_scenarios(ctx, rng):
     return out
 
 
+def gen_concurrent_make(rng, n):
+    """overlapping makegateway calls: random interleavings of `b c id` / `f c fault`, every call finished at the end"""
+    out = [
+        # the shape "A in flight, B refused, C after B, A and C finish" first
+        dict(kind="concurrent-make", ops=[["b", 0, 7], ["b", 1, 7], ["b", 2, 7], ["f", 0, 0], ["f", 2, 0]]),
+        dict(kind="concurrent-make", ops=[["b", 0, 7], ["f", 0, 1], ["b", 1, 7], ["f", 1, 0], ["b", 2, 7]]),
+        dict(kind="concurrent-make", ops=[["b", 0, None], ["b", 1, 0], ["b", 2, 1], ["b", 3, None], ["f", 2, 0], ["f", 0, 0], ["b", 4, None], ["f", 4, 0]]),
+    ]
+    for _ in range(n):
+        ncalls = rng.randint(2, 6)
+        pool = rng.choice([[7], [7, 8], [7, None], [0, 1, None], [7, 8, None]])
+        ops, open_, nxt = [], [], 0
+        while nxt < ncalls or open_:
+            if nxt < ncalls and (not open_ or rng.random() < 0.6):
+                ops.append(["b", nxt, rng.choice(pool)])
+                open_.append(nxt)   # (a refused call is simply "not in flight" for its `f`)
+                nxt += 1
+            else:
+                c = open_.pop(rng.randrange(len(open_)))
+                ops.append(["f", c, 1 if rng.random() < 0.25 else 0])
+        out.append(dict(kind="concurrent-make", ops=ops))
+    return out
+
+
+def concurrent_model_line(sc):
+    toks = []
+    for k, c, a in sc["ops"]:
+        toks.append("%s%d:%s" % (k, c, ("-" if a is None else a) if k == "b" else a))
+    return "mkc.run code " + " ".join(toks)
+
+
 class ScenarioRun(threading.Thread):
     def __init__(self, sc, idx):
         super().__init__(daemon=True)
@@ -630,7 +661,8 @@ def check_scenarios(ctx, res, scenarios, origin, parallel=12):
             r.join(0.05)
             if not r.is_alive():
                 running.remove(r)
-    models = ctx.driver.ask([scenario_model_line(sc) if sc["kind"] == "terminate" else "make.run pinned taken none" for sc in scenarios])
+    models = ctx.driver.ask([scenario_model_line(sc) if sc["kind"] == "terminate" else
+                             concurrent_model_line(sc) if sc["kind"] == "concurrent-make" else "make.run pinned taken none" for sc in scenarios])
     for run_, model in zip(runs, models):
         sc = run_.sc
         key = dict(scenario=sc, kind="process", origin=origin)
@@ -638,6 +670,38 @@ def check_scenarios(ctx, res, scenarios, origin, parallel=12):
             raise common.ToolFailure("C05 scenario failed to run: %s\n%s" % (json.dumps(sc), run_.error))
         r = run_.result
         res.count(("process", json.dumps(sc, sort_keys=True)), nontrivial=True)
+        if sc["kind"] == "concurrent-make":
+            res.stat("concurrent_make")
+            res.stat("concurrent_make_calls_%d" % sum(1 for o in sc["ops"] if o[0] == "b"))
+            if r.get("hang"):
+                res.violations.append(dict(case=key, what="overlapping makegateway calls: scenario hangs", impl=r, finding=None))
+                continue
+            for o in r["outs"]:
+                res.stat("concurrent_make_out_" + o.rstrip("0123456789").split(":")[0])
+            # model-free: no process unknown to the group, distinct member ids, nothing reserved once every call is back,
+            # nothing alive after terminate
+            if r["norphans"]:
+                res.violations.append(dict(case=key, what="%d worker process(es) created by makegateway are unknown to the group (not a member's process) "
+                                           "after all calls returned; outcomes %s" % (r["norphans"], r["outs"]), impl=r, finding=None))
+            if len(set(r["members"])) != len(r["members"]):
+                res.violations.append(dict(case=key, what="two members share an id: %r" % (r["members"],), impl=r, finding=None))
+            if r["reserved"]:
+                res.violations.append(dict(case=key, what="ids still reserved although no makegateway call is in flight: %r" % (r["reserved"],), impl=r, finding=None))
+            if r["after_terminate"] or r.get("extra_alive"):
+                res.violations.append(dict(case=key, what="processes alive after terminate: %r %r" % (r["after_terminate"], r.get("extra_alive")), impl=r, finding=None))
+            if any(o.startswith(("unexpected", "stuck")) for o in r["outs"]):
+                res.violations.append(dict(case=key, what="a makegateway call ended unexpectedly: %r" % (r["outs"],), impl=r, finding=None))
+            obs = "%s | members=%s reserved=%s procs=%s orphans=%s inflight=0" % (
+                " ".join(r["outs"]), ",".join(m[2:] for m in r["members"]) or "-", ",".join(x[2:] for x in r["reserved"]) or "-",
+                "?", "-" if not r["norphans"] else "n%d" % r["norphans"])
+            import re as _re
+            want = _re.sub(r"procs=\S+", "procs=?", model)
+            want = _re.sub(r"orphans=(\S+)", lambda m: "orphans=" + ("-" if m.group(1) == "-" else "n%d" % len(m.group(1).split(","))), want)
+            if obs != want:
+                res.mismatches.append(dict(op="mkc.run", case=key, impl=obs, model=want))
+            else:
+                res.traces += 1
+            continue
         if sc["kind"] == "failed-make":
             res.stat("failed_make")
             order = "raised=%s extra=%d" % (r.get("raised"), len(r.get("extra", [])))
@@ -702,7 +766,9 @@ def run(ctx):
     res.rule = ("virtual: group size 1-8 x via forest x remote class (exits after d / stuck) x kill class (effective / no-op / never "
                 "returns) x members exit()ed beforehand x time-out x kill cost x scheduler seed, real Group.terminate + safe_terminate "
                 "under the deterministic scheduler; process: popen / via / via-chain / socket topologies x 9 remote programs x "
-                "time-outs {0.2, 0.5, 1.0} x execmodels; plus makegateway with a live id; distinct = distinct case; non-trivial = "
+                "time-outs {0.2, 0.5, 1.0} x execmodels; plus makegateway with a live id; plus overlapping makegateway calls (2-6 calls, explicit / "
+                "automatic ids, injected start-up faults, every interleaving of reserve and finish steps generated) against the concurrent model; "
+                "distinct = distinct case; non-trivial = "
                 "more than one member or a stuck / pre-exited member")
     res.assumptions = ["SIGKILL kills and wait() then returns; the wall-clock meaning of a tick: OS facts, sampled by the process-level runs only"]
     check_virtual(ctx, res, VIRTUAL_CORPUS, "corpus")
@@ -713,6 +779,7 @@ def run(ctx):
         return res
     scenarios = gen_scenarios(ctx, ctx.rng("process"))
     scenarios.append(dict(kind="failed-make", spec="popen//id=x", taken=True))
+    scenarios += gen_concurrent_make(ctx.rng("concurrent-make"), ctx.budget(12, 300, 60))
     check_scenarios(ctx, res, scenarios, "gen")
     return res
 
